@@ -234,12 +234,75 @@ def _check_freeze(ctx, P, has_s1):
                ok and len(s1) >= 1, gen, n, detail=f"freeze predicate: {norm.show(t)}; kill predicate: usage > <c>.assignment.ram")
 
 
+def check_setter_for_active_only(ctx, num=3):
+    """The pool's counter is the sum over its *active* containers and is re-summed whenever one leaves that list.  A container that has left
+    (being written out, or suspended) must therefore not report a change of its usage to the pool any more: the setter would take its share
+    off the counter a second time.  Rule: no Container method that the pool invokes on elements of its non-active lists reaches the setter,
+    the usage field or the pool counter."""
+    P = ctx.P
+    entry = {}
+    for f in P.all_funcs(False, raw=True):
+        if f.mod.rel != RP or f.cls != "ResourcePool":
+            continue
+        for n in own_nodes(f.node):
+            its = []
+            if isinstance(n, ast.For) and isinstance(n.target, ast.Name):
+                its.append((n.iter, n.target.id, n))
+            elif isinstance(n, (ast.ListComp, ast.SetComp, ast.GeneratorExp, ast.DictComp)):
+                for ge in n.generators:
+                    if isinstance(ge.target, ast.Name):
+                        its.append((ge.iter, ge.target.id, n))
+            for it, v, scope in its:
+                src = it
+                while isinstance(src, ast.Call) and isinstance(src.func, ast.Name) and src.func.id in ("list", "tuple", "sorted", "reversed", "enumerate") and src.args:
+                    src = src.args[0]
+                if isinstance(src, ast.Subscript) and isinstance(src.slice, ast.Slice):
+                    src = src.value
+                la = pool._list_attr(src)
+                if la in ("suspending_containers", "suspended_containers"):
+                    for c in ast.walk(scope):
+                        if isinstance(c, ast.Call) and isinstance(c.func, ast.Attribute) and norm.is_name(c.func.value, v):
+                            entry.setdefault(c.func.attr, (f, c, la))
+    ctx.count_min("Container methods the pool invokes on containers that are being written out / suspended", len(entry), 1)
+    mod = P.modules[CT]
+    cls = mod.classes.get("Container")
+    seen = {}
+    work = [(m, m) for m in sorted(entry)]
+    while work:
+        m, root = work.pop()
+        if m in seen or cls is None or m not in cls.methods:
+            continue
+        seen[m] = root
+        for c in own_nodes(cls.methods[m].node):
+            if isinstance(c, ast.Call) and isinstance(c.func, ast.Attribute) and norm.is_name(c.func.value, "self"):
+                work.append((c.func.attr, root))
+    for m, root in sorted(seen.items()):
+        fn = cls.methods[m]
+        ctx.touch(fn)
+        bad = []
+        for n in own_nodes(fn.node):
+            if isinstance(n, ast.Call) and isinstance(n.func, ast.Attribute) and n.func.attr == "set_current_memory_usage":
+                bad.append(n)
+            elif isinstance(n, ast.Attribute) and isinstance(n.ctx, ast.Store) and n.attr in ("_current_memory", "consumed_ram_gb"):
+                bad.append(n)
+        if m == "set_current_memory_usage":
+            continue   # reported at the call that reaches it
+        ctx.ob(num, "K1", "a container that is no longer active (being written out or suspended) does not report memory changes to its pool: "
+               "its share was dropped from the pool's sum when it left the active list", not bad, fn, bad[0] if bad else fn.node,
+               construct=f"{m} (reached from the pool's handling of {entry[root][2]} via {root})",
+               detail=f"{[stmt_text(pool.stmt_of(b)) for b in bad]}" if bad else "no call of the setter, no store to the usage field or the pool counter")
+
+
 def run(ctx):
     check_writers(ctx, 1)
     check_delta(ctx, 2)
     pool.ob_moves_classified(ctx, 3)
     check_invariant(ctx, 3)
+    check_setter_for_active_only(ctx, 3)
     check_kills(ctx)
+    # "a pool's total use does not exceed its capacity after a tick": the pool-level pass must be able to reach every container that holds
+    # memory — a candidate list that leaves some out can run dry while the pool is still over its capacity (C11#4)
+    c11._run(Renumber(ctx, {4: 6}, drop=(1, 2, 3, 5, 6)))
     pool.ob_phases(ctx, 8)
     from . import c09
     c09.check_every_pool_ticked(ctx, 8)     # the limits are enforced by the killer that runs in the pool's tick: no pool may be left out
